@@ -105,7 +105,9 @@ Load(S, nameBytes) ==   \* <<ok, name, S'>>
   IF ~IsPrintable(nameBytes) THEN <<FALSE, "", OomS(S)>>
   ELSE LET n == B2S(nameBytes)
            S1 == Ev(S, [e |-> "load", name |-> nameBytes]) IN
-       IF n \in DOMAIN S.tpls THEN <<TRUE, n, S1>> ELSE <<FALSE, n, Fail(S1)>>
+       IF n \notin DOMAIN S.tpls THEN <<FALSE, n, Fail(S1)>>
+       ELSE IF S.tpls[n] # <<>> /\ S.tpls[n][1].k = "syntaxerror" THEN <<FALSE, n, Fail(S1)>>   \* loads, does not parse
+       ELSE <<TRUE, n, S1>>
 
 FreshState(S, tpl, ctx) ==
   [S EXCEPT !.scopes = <<ctx>>, !.blocks = <<BlocksIn(S.tpls[tpl], tpl)>>, !.cur = NoCur, !.name = tpl,
